@@ -858,6 +858,64 @@ impl Laid {
     }
 }
 
+fn enc_opt(v: Option<f32>, out: &mut Vec<u64>) {
+    match v {
+        Some(x) => out.extend([1, canon(x)]),
+        None => out.extend([0, 0]),
+    }
+}
+
+impl Laid {
+    /// K2: one block container of an arbitrary tree with the LayoutOutputs its children returned (recorded) as oracle values.
+    /// `C` = inputs of the run that produced its layout + its style + per child (style, recorded output);
+    /// `R` = its own LayoutOutput (height, collapse-through flag, margin sets) + per in-flow child the stored layout and the
+    /// known dimensions / available width the container passed to it.
+    fn k2_lines(&self, b: usize) -> Option<(String, String)> {
+        let inp = self.last_run[b]?;
+        let (_, bout) = self.last[b]?;
+        if inp.sizing_mode != taffy::SizingMode::InherentSize || self.children_overwritten(b) {
+            return None;
+        }
+        let nb = &self.t.nodes[b];
+        let mut c: Vec<u64> = vec![];
+        enc_opt(inp.known_dimensions.width, &mut c);
+        enc_opt(inp.known_dimensions.height, &mut c);
+        enc_opt(inp.parent_size.width, &mut c);
+        enc_opt(inp.parent_size.height, &mut c);
+        c.push(inp.vertical_margins_are_collapsible.start as u64);
+        c.push(inp.vertical_margins_are_collapsible.end as u64);
+        c.push(nb.children.len() as u64);
+        enc_style(&nb.style, &None, &mut c);
+        let mut r: Vec<u64> = vec![canon(bout.size.width), canon(bout.size.height), bout.margins_can_collapse_through as u64];
+        let (tp, bt) = (parse_set(&bout.top_margin), parse_set(&bout.bottom_margin));
+        r.extend([canon(tp.pos), canon(tp.neg), canon(bt.pos), canon(bt.neg)]);
+        for ch in &nb.children {
+            let cn = &self.t.nodes[*ch];
+            enc_style(&cn.style, &None, &mut c);
+            let inflow = cn.style.display != Display::None && cn.style.position != Position::Absolute;
+            if !inflow {
+                c.extend([0; 10]);
+                continue;
+            }
+            let (ci, co) = self.last[*ch]?;
+            let (ct, cb) = (parse_set(&co.top_margin), parse_set(&co.bottom_margin));
+            c.extend([1, canon(co.size.width), canon(co.size.height), canon(co.content_size.width), canon(co.content_size.height)]);
+            c.extend([canon(ct.pos), canon(ct.neg), canon(cb.pos), canon(cb.neg), co.margins_can_collapse_through as u64]);
+            let l = &cn.unrounded;
+            r.extend([l.order as u64, canon(l.location.x), canon(l.location.y), canon(l.size.width), canon(l.size.height)]);
+            r.extend([canon(l.margin.left), canon(l.margin.right), canon(l.margin.top), canon(l.margin.bottom)]);
+            enc_opt(ci.known_dimensions.width, &mut r);
+            enc_opt(ci.known_dimensions.height, &mut r);
+            match ci.available_space.width {
+                AvailableSpace::Definite(v) => r.push(canon(v)),
+                _ => r.push(u32::MAX as u64 + 1),
+            }
+        }
+        let j = |v: &Vec<u64>| v.iter().map(|x| x.to_string()).collect::<Vec<_>>().join(" ");
+        Some((format!("C {}", j(&c)), format!("R {}", j(&r))))
+    }
+}
+
 fn width_resolves(s: &Style, _pw: f32) -> bool {
     // width: length or percentage (the parent passes a definite parent width in block flow)
     !s.size.width.is_auto()
@@ -1107,6 +1165,38 @@ pub fn main(args: &[String]) {
                 println!("{txt}avail={:?}", avail);
             }
         }
+        "kcases2" => {
+            // K2 cases: every eligible block container of the oracle trees 0..n (tagged with tree index and node)
+            let (seed, n) = (num(1), num(2));
+            let only: Option<(u64, usize)> = if args.len() > 4 { Some((num(3), num(4) as usize)) } else { None };
+            for idx in 0..n {
+                if let Some((i, _)) = only {
+                    if i != idx {
+                        continue;
+                    }
+                }
+                let (spec, avail) = ocase(seed, idx);
+                let r = std::panic::catch_unwind(|| {
+                    let laid = lay_out(&spec, avail);
+                    let mut v = vec![];
+                    for b in 0..laid.t.nodes.len() {
+                        if laid.live[b] && laid.is_block_container(b) {
+                            if let Some((c, r)) = laid.k2_lines(b) {
+                                v.push((b, c, r));
+                            }
+                        }
+                    }
+                    v
+                });
+                if let Ok(v) = r {
+                    for (b, c, r) in v {
+                        if only.map(|(_, node)| node == b).unwrap_or(true) {
+                            println!("T {idx} {b}\n{c}\n{r}");
+                        }
+                    }
+                }
+            }
+        }
         "case-log" => {
             let (spec, avail) = kcase(num(1), num(2));
             let laid = lay_out(&spec, avail);
@@ -1228,6 +1318,23 @@ pub fn main(args: &[String]) {
             }
             let mut st = Stats::default();
             print_findings(0, &check_tree(&spec, avail, &mut st));
+        }
+        "probe-padding" => {
+            // observation (not part of C10): Layout.padding of a block child is item.padding, resolved against the container's
+            // content box SIZE (top/bottom against its height), while the child itself resolves all four against the width
+            let child = NodeSpec::leaf(Style {
+                display: Display::Block,
+                padding: Rect { left: LengthPercentage::length(0.0), right: LengthPercentage::length(0.0), top: LengthPercentage::percent(0.1), bottom: LengthPercentage::length(0.0) },
+                ..Default::default()
+            });
+            let root = NodeSpec { style: Style { display: Display::Block, size: Size::from_lengths(200.0, 100.0), ..Default::default() }, ctx: None, children: vec![child] };
+            let mut t: TaffyTree<Ctx> = TaffyTree::new();
+            t.disable_rounding();
+            let mut ids = vec![];
+            let r = treegen::build(&mut t, &root, &mut ids);
+            treegen::compute(&mut t, r, Size::MAX_CONTENT);
+            let l = t.unrounded_layout(ids[1]);
+            println!("PROBE child height={} (padding-top 10% of width 200 = 20) layout.padding.top={}", l.size.height, l.padding.top);
         }
         "witness2" => {
             let (spec, avail) = witness2_spec();
